@@ -22,33 +22,48 @@ Record stable (s s' : st) : Prop := {
   st_form : form_elem s' = form_elem s ;
   st_ctx : context_elem s' = context_elem s ;
   st_opts : opts s' = opts s ;
-  st_sv : exists l, sv_elems (sv s') = sv_elems (sv s) ++ l
+  st_sv : exists l, sv_elems (sv s') = sv_elems (sv s) ++ l ;
+  (* template contents are only registered under fresh handles *)
+  st_tmpl : exists l, sv_tmpl (sv s') = l ++ sv_tmpl (sv s) /\ Forall (fun p => length (sv_elems (sv s)) <= snd p) l
 }.
 
+(* nothing but the stack, the formatting list, the flags and the output differs *)
+Lemma stable_eqs s s' :
+  mode s' = mode s -> orig_mode s' = orig_mode s -> template_modes s' = template_modes s ->
+  pending_table_text s' = pending_table_text s -> head_elem s' = head_elem s -> form_elem s' = form_elem s ->
+  context_elem s' = context_elem s -> opts s' = opts s -> sv s' = sv s -> stable s s'.
+Proof.
+  intros E1 E2 E3 E4 E5 E6 E7 E8 E9. constructor; try assumption.
+  - exists []. rewrite E9, app_nil_r. reflexivity.
+  - exists []. rewrite E9. split; [reflexivity | constructor].
+Qed.
+
 Lemma stable_refl s : stable s s.
-Proof. constructor; try reflexivity. exists []. rewrite app_nil_r. reflexivity. Qed.
+Proof. apply stable_eqs; reflexivity. Qed.
 
 Lemma stable_trans a b c : stable a b -> stable b c -> stable a c.
 Proof.
-  intros [A1 A2 A3 A4 A5 A6 A7 A8 [l1 A9]] [B1 B2 B3 B4 B5 B6 B7 B8 [l2 B9]].
-  constructor; try congruence. exists (l1 ++ l2). rewrite B9, A9, app_assoc. reflexivity.
+  intros [A1 A2 A3 A4 A5 A6 A7 A8 [l1 A9] [m1 [A10 A11]]] [B1 B2 B3 B4 B5 B6 B7 B8 [l2 B9] [m2 [B10 B11]]].
+  constructor; try congruence.
+  - exists (l1 ++ l2). rewrite B9, A9, app_assoc. reflexivity.
+  - exists (m2 ++ m1). split; [rewrite B10, A10, app_assoc; reflexivity|]. apply Forall_app. split; [|exact A11].
+    eapply Forall_impl; [|exact B11]. intros p Hp. rewrite A9, app_length in Hp. lia.
 Qed.
-
-Lemma stable_known s s' h : stable s s' -> known s h -> known s' h.
-Proof. intros [_ _ _ _ _ _ _ _ [l E]] K. unfold known, next_handle in *. rewrite E, app_length. lia. Qed.
 
 Lemma stable_einfo s s' h : stable s s' -> known s h -> einfo_of s' h = einfo_of s h.
 Proof.
-  intros [_ _ _ _ _ _ _ _ [l E]] K. unfold known, next_handle, einfo_of in *. rewrite E.
+  intros [_ _ _ _ _ _ _ _ [l E]] K. apply known_lt in K. unfold next_handle, einfo_of in *. rewrite E.
   rewrite app_nth1; [reflexivity | exact K].
 Qed.
+Lemma stable_known s s' h : stable s s' -> known s h -> known s' h.
+Proof. intros S K. pose proof K as [e He]. exists e. rewrite (stable_einfo _ _ _ S K). exact He. Qed.
 Lemma stable_ename s s' h : stable s s' -> known s h -> ename_of s' h = ename_of s h.
 Proof. intros S K. unfold ename_of. rewrite (stable_einfo _ _ _ S K). reflexivity. Qed.
 
 Lemma stable_core_eq s s' : core_eq s s' -> opts s' = opts s -> stable s s'.
 Proof.
-  intros (A1 & A2 & A3 & A4 & A5 & A6 & A7 & A8 & A9 & A10) O.
-  constructor; try assumption. exists []. rewrite A10, app_nil_r. reflexivity.
+  intros (A1 & A2 & A3 & A4 & A5 & A6 & A7 & A8 & A9 & A10 & A11) O.
+  apply stable_eqs; assumption.
 Qed.
 
 Definition late (s : st) : Prop := early_mode (mode s) = false.
@@ -64,11 +79,20 @@ Lemma keeps_trans s s1 s2 : keeps s s1 -> keeps s1 s2 -> keeps s s2.
 Proof. intros [_ S1] [I2 S2]. split; [exact I2 | eapply stable_trans; eassumption]. Qed.
 
 (* setters outside the core *)
-Lemma keeps_set_out s0 s v : keeps s0 s -> keeps s0 (set_out v s).
+Lemma keeps_set_out s0 s v : keeps s0 s -> sig v = sig (out s) -> keeps s0 (set_out v s).
 Proof.
-  intros [I S]. split.
-  - eapply TInv_core_eq; [apply core_eq_set_out | exact I].
-  - eapply stable_trans; [exact S|]. apply stable_core_eq; [apply core_eq_set_out | reflexivity].
+  intros [I S] E. split.
+  - eapply TInv_core_eq; [apply core_eq_set_out; exact E | exact I].
+  - eapply stable_trans; [exact S|]. apply stable_core_eq; [apply core_eq_set_out; exact E | reflexivity].
+Qed.
+(* an operation with handle arguments: it must pass the check of the moment *)
+Lemma stable_set_out s v : stable s (set_out v s).
+Proof. apply stable_eqs; reflexivity. Qed.
+Lemma keeps_emit s0 s op : keeps s0 s -> significant (EvOp op) = true -> ev_sv (EvOp op) (sv s) = sv s ->
+  op_okb (sv s) op = true -> keeps s0 (set_out (EvOp op :: out s) s).
+Proof.
+  intros [I S] Sg Esv Ok. split; [apply TInv_emit; assumption|].
+  eapply stable_trans; [exact S | apply stable_set_out].
 Qed.
 Lemma keeps_set_frameset_ok s0 s v : keeps s0 s -> keeps s0 (set_frameset_ok v s).
 Proof.
@@ -144,14 +168,22 @@ Proof. reflexivity. Qed.
 Lemma new_elem_keeps s0 s name attrs dup :
   keeps s0 s -> keeps s0 (new_elem_state name attrs dup s).
 Proof.
-  intros K. unfold new_elem_state.
-  set (s1 := set_out _ s). assert (K1 : keeps s0 s1) by (apply keeps_set_out; exact K).
-  destruct K1 as [I1 S1]. split.
-  - eapply TInv_sv_ext; [exact I1 | unfold sv_extends, sv_push; simpl; reflexivity |].
-    intros e' E. injection E as <-. reflexivity.
-  - eapply stable_trans; [exact S1|]. constructor; try reflexivity. eexists. unfold sv_push. simpl. reflexivity.
+  intros [I S]. unfold new_elem_state. cbv zeta. split.
+  - eapply TInv_sv_ext; [exact I | unfold sv_extends, sv_push; simpl; reflexivity | | reflexivity | reflexivity |].
+    + intros e' E. injection E as <-. reflexivity.
+    + unfold op_okb, next_handle. rewrite Nat.eqb_refl. unfold template_name, annotation_xml_name, in_set. cbn [existsb].
+      rewrite !orb_false_r, eqb_reflx. cbn [andb].
+      destruct (ename_eqb (q_ns name, q_local name) (ns_mathml, nm "annotation-xml")); [|reflexivity].
+      cbn [andb]. destruct (existsb _ attrs); reflexivity.
+  - eapply stable_trans; [exact S|]. constructor; try reflexivity; [eexists; unfold sv_push; simpl; reflexivity|].
+    exists []. split; [reflexivity | constructor].
 Qed.
 
+Lemma new_elem_stable s name attrs dup : stable s (new_elem_state name attrs dup s).
+Proof.
+  constructor; try reflexivity; [eexists; unfold new_elem_state, sv_push; simpl; reflexivity|].
+  exists []. split; [reflexivity | constructor].
+Qed.
 Lemma new_elem_name s name attrs dup :
   ename_of (new_elem_state name attrs dup s) (next_handle s) = (q_ns name, q_local name).
 Proof.
@@ -159,7 +191,10 @@ Proof.
   rewrite app_nth2; [|lia]. rewrite Nat.sub_diag. reflexivity.
 Qed.
 Lemma new_elem_known s name attrs dup : known (new_elem_state name attrs dup s) (next_handle s).
-Proof. unfold known, new_elem_state, next_handle, sv_push. simpl. rewrite app_length. simpl. lia. Qed.
+Proof.
+  unfold known, new_elem_state, einfo_of, next_handle, sv_push. simpl. eexists.
+  rewrite app_nth2; [|lia]. rewrite Nat.sub_diag. reflexivity.
+Qed.
 Lemma new_elem_stack s name attrs dup : open_elems (new_elem_state name attrs dup s) = open_elems s.
 Proof. reflexivity. Qed.
 Lemma new_elem_af s name attrs dup : active_formatting (new_elem_state name attrs dup s) = active_formatting s.
@@ -175,11 +210,12 @@ Lemma sink_create_comment_eq text s : sink_create_comment text s = Ok (next_hand
 Proof. reflexivity. Qed.
 Lemma new_comment_keeps s0 s text : keeps s0 s -> keeps s0 (new_comment_state text s).
 Proof.
-  intros K. unfold new_comment_state.
-  set (s1 := set_out _ s). assert (K1 : keeps s0 s1) by (apply keeps_set_out; exact K).
-  destruct K1 as [I1 S1]. split.
-  - eapply TInv_sv_ext; [exact I1 | unfold sv_extends, sv_push; simpl; reflexivity | intros e' E; discriminate].
-  - eapply stable_trans; [exact S1|]. constructor; try reflexivity. eexists. unfold sv_push. simpl. reflexivity.
+  intros [I S]. unfold new_comment_state. cbv zeta. split.
+  - eapply TInv_sv_ext; [exact I | unfold sv_extends, sv_push; simpl; reflexivity | intros e' E; discriminate
+                         | reflexivity | reflexivity |].
+    unfold op_okb, next_handle. apply Nat.eqb_refl.
+  - eapply stable_trans; [exact S|]. constructor; try reflexivity; [eexists; unfold sv_push; simpl; reflexivity|].
+    exists []. split; [reflexivity | constructor].
 Qed.
 Lemma new_comment_stack s text : open_elems (new_comment_state text s) = open_elems s.
 Proof. reflexivity. Qed.
@@ -202,9 +238,16 @@ Proof. destruct a. unfold ename_eqb. simpl. rewrite !str_eqb_refl. reflexivity. 
 Lemma named_ename s h n : named s h n = true -> ename_of s h = (ns_html, nm n).
 Proof. unfold named, html_elem_named_b. apply ename_eqb_eq. Qed.
 
+Lemma sync_tmpl_lt s p : TInv s -> In p (sv_tmpl (sv s)) -> snd p < length (sv_elems (sv s)).
+Proof.
+  intros I H. pose proof (inv_sync _ I) as Sy. pose proof (inv_trace _ I) as Tr. unfold sync_ok, trace_ok in *.
+  rewrite <- Sy in *. apply tsv_tmpl_lt; assumption.
+Qed.
+
 Lemma wp_sink_get_template_contents s0 s t (Q : handle -> st -> Prop) :
   keeps s0 s -> named s t "template" = true ->
-  (forall r s', keeps s0 s' -> open_elems s' = open_elems s -> active_formatting s' = active_formatting s -> Q r s') ->
+  (forall r s', keeps s0 s' -> stable s s' -> open_elems s' = open_elems s -> active_formatting s' = active_formatting s ->
+                v_contents (sv s') r = true -> Q r s') ->
   wp (sink_get_template_contents t) Q s.
 Proof.
   intros K N H. pose proof K as [I S].
@@ -214,13 +257,29 @@ Proof.
   2:{ exfalso. injection En as A B. unfold ns_html in A. discriminate. }
   pose proof (inv_sv _ I _ _ E) as F. injection En as A B.
   rewrite A, B, ename_eqb_refl in F. rewrite F.
-  destruct (find _ _) as [p|].
-  - rewrite wp_bind, wp_emit, wp_ret. apply H; [apply keeps_set_out; exact K | reflexivity | reflexivity].
-  - rewrite wp_bind, wp_emit, wp_bind, wp_modify, wp_ret. apply H; [| reflexivity | reflexivity].
-    set (s1 := set_out _ s). assert (K1 : keeps s0 s1) by (apply keeps_set_out; exact K).
-    destruct K1 as [I1 S1]. split.
-    + eapply TInv_sv_ext; [exact I1 | unfold sv_extends; simpl; reflexivity | intros e' E'; discriminate].
-    + eapply stable_trans; [exact S1|]. constructor; try reflexivity. eexists. simpl. reflexivity.
+  assert (Nm : v_named (sv s) t template_name = true).
+  { eapply v_named_of; [exact E|]. rewrite A, B. reflexivity. }
+  destruct (find _ _) as [p|] eqn:Ef.
+  - rewrite wp_bind, wp_emit, wp_ret. pose proof (find_some _ _ Ef) as [Hin Hp].
+    pose proof (sync_tmpl_lt s p I Hin) as Lt.
+    apply H; [| apply stable_set_out | reflexivity | reflexivity |].
+    + apply keeps_emit; [exact K | reflexivity | |].
+      * cbn [ev_sv]. replace (Nat.eqb (snd p) (length (sv_elems (sv s)))) with false; [reflexivity|].
+        symmetry. apply Nat.eqb_neq. intro X. exact (Nat.lt_irrefl _ (eq_rect _ (fun n => n < length (sv_elems (sv s))) Lt _ X)).
+      * cbn [op_okb]. rewrite Nm, Ef, Nat.eqb_refl. reflexivity.
+    + cbn [sv set_out]. unfold v_contents. apply existsb_exists. exists p. split; [exact Hin | apply Nat.eqb_refl].
+  - rewrite wp_bind, wp_emit, wp_bind, wp_modify, wp_ret.
+    assert (St : stable s (set_sv {| sv_elems := sv_elems (sv s) ++ [None]; sv_tmpl := (t, next_handle s) :: sv_tmpl (sv s) |}
+                                  (set_out (EvOp (OpGetTemplateContents t (next_handle s)) :: out s) s))).
+    { constructor; try reflexivity; [eexists; simpl; reflexivity|].
+      exists [(t, next_handle s)]. split; [reflexivity | constructor; [apply Nat.le_refl | constructor]]. }
+    apply H; [| exact St | reflexivity | reflexivity |].
+    + split.
+      * eapply TInv_sv_ext; [exact I | unfold sv_extends; simpl; reflexivity | intros e' E'; discriminate | reflexivity | |].
+        -- cbn [ev_sv]. unfold next_handle. rewrite Nat.eqb_refl. reflexivity.
+        -- cbn [op_okb]. rewrite Nm, Ef. unfold next_handle. rewrite Nat.eqb_refl. reflexivity.
+      * eapply stable_trans; [exact S | exact St].
+    + cbn. rewrite Nat.eqb_refl. reflexivity.
 Qed.
 
 (* ---------- appropriate place for inserting a node ---------- *)
@@ -234,32 +293,141 @@ Proof. intros [A1 A2] [B1 B2]. split; congruence. Qed.
 Lemma named_core_eq s s' h n : core_eq s s' -> named s' h n = named s h n.
 Proof. intro C. unfold named, html_elem_named_b. rewrite (core_eq_ename _ _ _ C). reflexivity. Qed.
 
+Lemma lt_eq_absurd (a b : nat) : a < b -> a = b -> False. Proof. intros; lia. Qed.
+Lemma le_lt_eq_absurd (a b c : nat) : a <= b -> c < a -> b = c -> False. Proof. intros; lia. Qed.
+(* ----- what is handed to the insertion methods ----- *)
+Definition child_ok (s : st) (c : child) : Prop := v_child (sv s) c = true.
+
+Lemma known_not_contents s h : TInv s -> known s h -> v_contents (sv s) h = false.
+Proof.
+  intros I [e He]. apply not_true_is_false. intro C.
+  apply v_contents_true in C. destruct C as (p & Hin & Hp). subst h.
+  pose proof (inv_sync _ I) as Sy. pose proof (inv_trace _ I) as Tr. unfold sync_ok, trace_ok in *.
+  pose proof (tsv_tmpl_none _ Tr p) as X. rewrite Sy in X. specialize (X Hin).
+  unfold einfo_of in He. assert (Y : Some e = None) by (rewrite <- He; exact X). discriminate Y.
+Qed.
+Lemma known_nonzero s h : TInv s -> known s h -> h <> 0.
+Proof.
+  intros I [e He] ->. pose proof (inv_sync _ I) as Sy. unfold sync_ok in Sy.
+  destruct (tsv_head (sig (out s))) as [l E]. rewrite Sy in E. unfold einfo_of in He. rewrite E in He. discriminate.
+Qed.
+Lemma known_child_ok s h : TInv s -> known s h -> child_ok s (inl h).
+Proof.
+  intros I K. unfold child_ok, v_child, v_created.
+  rewrite (known_v_known _ _ K), (known_not_contents _ _ I K).
+  destruct (Nat.eqb h 0) eqn:E; [apply Nat.eqb_eq in E; exfalso; exact (known_nonzero _ _ I K E) | reflexivity].
+Qed.
+Lemma text_child_ok s t : child_ok s (inr t). Proof. reflexivity. Qed.
+(* a comment, right after its creation *)
+Lemma new_comment_child_ok s text : TInv s -> child_ok (new_comment_state text s) (inl (next_handle s)).
+Proof.
+  intro I. unfold child_ok, v_child, v_created, v_known, new_comment_state, sv_push. cbn [sv set_sv set_out sv_elems sv_tmpl].
+  rewrite app_length. cbn [List.length]. unfold next_handle.
+  replace (Nat.ltb (length (sv_elems (sv s))) (length (sv_elems (sv s)) + 1)) with true by (symmetry; apply Nat.ltb_lt; lia).
+  pose proof (proj2 (inv_known _ I)) as P. unfold next_handle in P.
+  replace (Nat.eqb (length (sv_elems (sv s))) 0) with false by (symmetry; apply Nat.eqb_neq; lia).
+  cbn [andb negb]. apply negb_true_iff. apply not_true_is_false. intro X.
+  apply v_contents_true in X. cbn [sv_tmpl] in X. destruct X as (q & Hin & Hq).
+  pose proof (sync_tmpl_lt s q I Hin) as Lt. exact (lt_eq_absurd _ _ Lt Hq).
+Qed.
+(* the check of a child survives the growth of the sink view *)
+Lemma child_ok_stable s s' c : stable s s' -> child_ok s c -> child_ok s' c.
+Proof.
+  intros S. destruct c as [h|t]; [|intros _; reflexivity]. unfold child_ok, v_child, v_created.
+  intro H. apply andb_true_iff in H. destruct H as [H H3]. apply andb_true_iff in H. destruct H as [H1 H2].
+  destruct (st_sv _ _ S) as [l E]. destruct (st_tmpl _ _ S) as (m & Em & Fm).
+  unfold v_known in *. apply Nat.ltb_lt in H1.
+  replace (Nat.ltb h (length (sv_elems (sv s')))) with true by (symmetry; apply Nat.ltb_lt; rewrite E, app_length; lia).
+  rewrite H2. cbn [andb]. apply negb_true_iff. apply negb_true_iff in H3.
+  apply not_true_is_false. intro X. apply v_contents_true in X. destruct X as (q & Hin & Hq).
+  rewrite Em in Hin. apply in_app_or in Hin. destruct Hin as [Hin|Hin].
+  - rewrite Forall_forall in Fm. specialize (Fm q Hin). exact (le_lt_eq_absurd _ _ _ Fm H1 Hq).
+  - exact (v_contents_false _ _ H3 q Hin Hq).
+Qed.
+
+(* insertion points: [need] = a contents fragment is only returned when a template is open *)
+Definition ip_ok (s : st) (need : bool) (ip : ipoint) : Prop :=
+  match ip with
+  | LastChild p => known s p \/ (v_contents (sv s) p = true /\ (need = true -> in_html_elem_named s (nm "template") = true))
+  | BeforeSibling sb => known s sb
+  | TableFoster e p => known s e /\ known s p
+  end.
+
+Lemma existsb_ext_in' {A} (f g : A -> bool) l : (forall a, In a l -> f a = g a) -> existsb f l = existsb g l.
+Proof.
+  induction l as [|x t IH]; intro H; simpl; [reflexivity|].
+  rewrite (H x (or_introl eq_refl)), IH; [reflexivity|]. intros a Ha. apply H. right. exact Ha.
+Qed.
+Lemma v_named_ename s h names : known s h -> v_named (sv s) h names = in_set names (ename_of s h).
+Proof. intros [e He]. unfold v_named, ename_of. rewrite v_info_einfo, He. reflexivity. Qed.
+
+Lemma in_html_elem_named_stable s s' n : TInv s -> stable s s' -> open_elems s' = open_elems s ->
+  in_html_elem_named s' n = in_html_elem_named s n.
+Proof.
+  intros I S E. unfold in_html_elem_named. rewrite E. apply existsb_ext_in'.
+  intros h Hh. unfold html_elem_named_b. rewrite (stable_ename _ _ _ S); [reflexivity|].
+  destruct (inv_known _ I) as [A _]. rewrite Forall_forall in A. apply A. unfold state_handles. apply in_or_app. left. exact Hh.
+Qed.
+Lemma v_contents_stable s s' h : stable s s' -> v_contents (sv s) h = true -> v_contents (sv s') h = true.
+Proof.
+  intros S C. apply v_contents_true in C. destruct C as (q & Hin & Hq). destruct (st_tmpl _ _ S) as (m & Em & _).
+  apply (v_contents_intro _ _ q); [rewrite Em; apply in_or_app; right; exact Hin | exact Hq].
+Qed.
+Lemma ip_ok_stable s s' need ip : TInv s -> stable s s' -> open_elems s' = open_elems s -> ip_ok s need ip -> ip_ok s' need ip.
+Proof.
+  intros I S E. destruct ip as [p|sb|e p]; simpl.
+  - intros [K|[C N]]; [left; eapply stable_known; eassumption | right].
+    split; [eapply v_contents_stable; eassumption|]. intro X. rewrite (in_html_elem_named_stable s s' _ I S E). apply N. exact X.
+  - intro K. eapply stable_known; eassumption.
+  - intros [A B]. split; eapply stable_known; eassumption.
+Qed.
+
+Lemma in_rev_stack s pre e rest : rev (open_elems s) = pre ++ e :: rest -> In e (open_elems s).
+Proof. intro E. apply in_rev. rewrite E. apply in_or_app. right. left. reflexivity. Qed.
+
+Lemma core_eq_sym_TInv sn s : core_eq sn s -> TInv s -> TInv sn.
+Proof.
+  intros C I. eapply TInv_core_eq; [|exact I].
+  destruct C as (A1&A2&A3&A4&A5&A6&A7&A8&A9&A10&A11). repeat split; congruence.
+Qed.
+
 Lemma wp_foster_search s0 sn l (Q : ipoint -> st -> Prop) :
   forall s, keeps s0 s -> core_eq sn s -> late s ->
   (exists pre, rev (open_elems sn) = pre ++ l) ->
-  (forall ip s', keeps s0 s' -> same_lists s s' -> Q ip s') ->
+  (forall ip s', keeps s0 s' -> same_lists s s' -> ip_ok s' true ip -> Q ip s') ->
   wp (foster_search sn l) Q s.
 Proof.
   induction l as [|e rest IH]; intros s K C L [pre E] H; simpl.
   - rewrite wp_bind. apply wp_probe. rewrite wp_bind, wp_unwrap.
     destruct K as [I S].
-    assert (I' : TInv sn).
-    { eapply TInv_core_eq; [|exact I]. destruct C as (A1&A2&A3&A4&A5&A6&A7&A8&A9&A10). repeat split; congruence. }
+    assert (I' : TInv sn) by (eapply core_eq_sym_TInv; eassumption).
     assert (L' : late sn) by (unfold late in *; destruct C as (A1 & _); rewrite <- A1; exact L).
     destruct (TInv_stack_nonempty _ I' L') as (r & rs & Er & _).
     exists r. split; [rewrite Er; reflexivity|]. rewrite wp_ret.
-    apply H; [apply keeps_set_out; split; assumption | split; reflexivity].
-  - destruct (named sn e "template") eqn:Nt.
+    assert (K1 : keeps s0 (set_out (EvArm 30 5 :: out s) s)) by ((apply keeps_set_out; [|reflexivity]); split; assumption).
+    apply H; [exact K1 | split; reflexivity |]. left.
+    assert (Kr : known sn r) by (eapply TInv_stack_known; [exact I' | rewrite Er; left; reflexivity]).
+    destruct Kr as [er Hr]. exists er. change (einfo_of s r = Some er). rewrite (core_eq_einfo _ _ _ C). exact Hr.
+  - assert (Ine : In e (open_elems sn)) by (eapply in_rev_stack; exact E).
+    assert (Es : open_elems s = open_elems sn) by (destruct C as (_&_&_&_&X&_); exact X).
+    destruct (named sn e "template") eqn:Nt.
     + rewrite wp_bind. apply wp_probe. rewrite wp_bind.
-      eapply wp_sink_get_template_contents; [apply keeps_set_out; exact K | |].
-      * rewrite (named_core_eq sn); [exact Nt|]. eapply core_eq_trans; [exact C | apply core_eq_set_out].
-      * intros r s' K' E1 E2. rewrite wp_ret. apply H; [exact K' | split; assumption].
+      assert (Nt1 : named (set_out (EvArm 30 3 :: out s) s) e "template" = true).
+      { rewrite (named_core_eq sn); [exact Nt|]. eapply core_eq_trans; [exact C | (apply core_eq_set_out; reflexivity)]. }
+      eapply wp_sink_get_template_contents; [(apply keeps_set_out; [|reflexivity]); exact K | exact Nt1 |].
+      intros r s' K' St' E1 E2 Cr. rewrite wp_ret. apply H; [exact K' | split; assumption |].
+      right. split; [exact Cr|]. intros _.
+      unfold in_html_elem_named. apply existsb_exists. exists e. split; [rewrite E1; cbn [open_elems set_out]; rewrite Es; exact Ine|].
+      (* the name of e is the same in s' *)
+      pose proof K as [I S]. pose proof K' as [I' S'].
+      assert (Ke : known s e) by (eapply TInv_stack_known; [exact I | rewrite Es; exact Ine]).
+      unfold html_elem_named_b. rewrite (stable_ename _ s' e St'); [|exact Ke].
+      unfold named, html_elem_named_b in Nt1. exact Nt1.
     + destruct (named sn e "table") eqn:Ntb.
       * destruct rest as [|p rest'].
         -- exfalso.
            destruct K as [I S].
-           assert (I' : TInv sn).
-           { eapply TInv_core_eq; [|exact I]. destruct C as (A1&A2&A3&A4&A5&A6&A7&A8&A9&A10). repeat split; congruence. }
+           assert (I' : TInv sn) by (eapply core_eq_sym_TInv; eassumption).
            assert (L' : late sn) by (unfold late in *; destruct C as (A1 & _); rewrite <- A1; exact L).
            destruct (TInv_stack_nonempty _ I' L') as (r & rs & Er & Nr).
            rewrite Er in E. simpl in E.
@@ -269,60 +437,88 @@ Proof.
            subst e. apply named_ename in Ntb. rewrite Nr in Ntb. unfold html_html in Ntb. injection Ntb as X.
            vm_compute in X. discriminate.
         -- rewrite wp_bind. apply wp_probe. rewrite wp_ret.
-           apply H; [apply keeps_set_out; exact K | split; reflexivity].
+           apply H; [(apply keeps_set_out; [|reflexivity]); exact K | split; reflexivity |].
+           pose proof K as [I S].
+           assert (Inp : In p (open_elems sn)).
+           { apply in_rev. rewrite E. apply in_or_app. right. right. left. reflexivity. }
+           split; (eapply TInv_stack_known; [eapply TInv_core_eq; [(apply core_eq_set_out; reflexivity) | exact I] | cbn [open_elems set_out]; rewrite Es; assumption]).
       * apply IH; try assumption. exists (pre ++ [e]). rewrite <- app_assoc. exact E.
 Qed.
 
 Lemma wp_appropriate_place s0 s o (Q : ipoint -> st -> Prop) :
-  keeps s0 s -> late s ->
-  (forall ip s', keeps s0 s' -> same_lists s s' -> Q ip s') ->
+  keeps s0 s -> late s -> (forall t, o = Some t -> known s t) ->
+  (forall ip s', keeps s0 s' -> same_lists s s' -> ip_ok s' (match o with None => true | Some _ => false end) ip -> Q ip s') ->
   wp (appropriate_place o) Q s.
 Proof.
-  intros K L H. unfold appropriate_place. rewrite wp_bind.
-  assert (X : forall s1 target, keeps s0 s1 -> same_lists s s1 -> late s1 ->
+  intros K L Ko H. unfold appropriate_place. rewrite wp_bind.
+  assert (X : forall s1 target, keeps s0 s1 -> same_lists s s1 -> late s1 -> known s1 target ->
+            (o = None -> In target (open_elems s1)) ->
             wp (s2 <- get ;;
                 (if negb (foster_parenting s2 && in_set foster_target (ename_of s2 target))
                  then if named s2 target "template"
                       then probe 1 ;; c <- sink_get_template_contents target ;; ret (LastChild c)
                       else probe 2 ;; ret (LastChild target)
                  else foster_search s2 (rev (open_elems s2)))) Q s1).
-  { intros s1 target K1 SL L1. rewrite wp_bind, wp_get.
+  { intros s1 target K1 SL L1 Kt Ht. rewrite wp_bind, wp_get.
     destruct (negb _).
     - destruct (named s1 target "template") eqn:Nt.
       + rewrite wp_bind. apply wp_probe. rewrite wp_bind.
-        eapply wp_sink_get_template_contents; [apply keeps_set_out; exact K1 | exact Nt |].
-        intros r s' K' E1 E2. rewrite wp_ret. apply H; [exact K'|].
-        eapply same_lists_trans; [exact SL | split; assumption].
-      + rewrite wp_bind. apply wp_probe. rewrite wp_ret. apply H; [apply keeps_set_out; exact K1|].
-        eapply same_lists_trans; [exact SL | split; reflexivity].
+        eapply wp_sink_get_template_contents; [(apply keeps_set_out; [|reflexivity]); exact K1 | exact Nt |].
+        intros r s' K' St' E1 E2 Cr. rewrite wp_ret. apply H; [exact K' | |].
+        * eapply same_lists_trans; [exact SL | split; assumption].
+        * right. split; [exact Cr|]. destruct o as [t|]; [discriminate|]. intros _.
+          unfold in_html_elem_named. apply existsb_exists. exists target. split; [rewrite E1; exact (Ht eq_refl)|].
+          unfold html_elem_named_b. rewrite (stable_ename _ s' target St'); [|exact Kt].
+          unfold named, html_elem_named_b in Nt. exact Nt.
+      + rewrite wp_bind. apply wp_probe. rewrite wp_ret. apply H; [(apply keeps_set_out; [|reflexivity]); exact K1| |].
+        * eapply same_lists_trans; [exact SL | split; reflexivity].
+        * left. exact Kt.
     - eapply wp_foster_search; [exact K1 | apply core_eq_refl | exact L1 | exists []; reflexivity |].
-      intros ip s' K' SL'. apply H; [exact K' | eapply same_lists_trans; eassumption]. }
+      intros ip s' K' SL' Ok'. apply H; [exact K' | eapply same_lists_trans; eassumption |].
+      destruct ip as [p|sb|e p]; try exact Ok'. destruct Ok' as [A|[A B]]; [left; exact A | right; split; [exact A|]].
+      intros _. apply B. reflexivity. }
   destruct o as [t|].
-  - rewrite wp_bind. apply wp_probe. rewrite wp_ret. apply X; [apply keeps_set_out; exact K | split; reflexivity | exact L].
+  - rewrite wp_bind. apply wp_probe. rewrite wp_ret.
+    apply X; [(apply keeps_set_out; [|reflexivity]); exact K | split; reflexivity | exact L | exact (Ko t eq_refl) | discriminate].
   - destruct K as [I S]. apply wp_current_node; [exact I | exact L |]. intros h V.
-    apply X; [split; assumption | apply same_lists_refl | exact L].
+    apply X; [split; assumption | apply same_lists_refl | exact L | | intros _; apply vlast_In; exact V].
+    eapply TInv_stack_known; [exact I | apply vlast_In; exact V].
 Qed.
 
-Lemma wp_insert_at s0 s ip c (Q : unit -> st -> Prop) :
-  keeps s0 s -> (forall s', keeps s0 s' -> same_lists s s' -> Q tt s') -> wp (insert_at ip c) Q s.
+Lemma ip_ok_container s need p : ip_ok s need (LastChild p) -> v_container (sv s) p = true.
 Proof.
-  intros K H. destruct ip; simpl; rewrite wp_emit; apply H; try (apply keeps_set_out; exact K); split; reflexivity.
+  intros [K|[C _]]; unfold v_container; [rewrite (known_v_elem _ _ K) | rewrite C]; rewrite ?orb_true_r; reflexivity.
+Qed.
+
+Lemma wp_insert_at s0 s need ip c (Q : unit -> st -> Prop) :
+  keeps s0 s -> ip_ok s need ip -> child_ok s c ->
+  (forall s', keeps s0 s' -> same_lists s s' -> Q tt s') -> wp (insert_at ip c) Q s.
+Proof.
+  intros K Ok Ch H. unfold child_ok in Ch.
+  destruct ip as [p|sb|e p]; simpl; rewrite wp_emit; (apply H; [|split; reflexivity]);
+    (apply keeps_emit; [exact K | reflexivity | reflexivity |]); cbn [op_okb].
+  - rewrite (ip_ok_container _ _ _ Ok), Ch. reflexivity.
+  - rewrite (known_v_known _ _ Ok), Ch. reflexivity.
+  - destruct Ok as [A B]. rewrite (known_v_elem _ _ A), (known_v_elem _ _ B), Ch. reflexivity.
 Qed.
 
 Lemma wp_insert_appropriately s0 s c o (Q : unit -> st -> Prop) :
-  keeps s0 s -> late s -> (forall s', keeps s0 s' -> same_lists s s' -> Q tt s') ->
+  keeps s0 s -> late s -> child_ok s c -> (forall t, o = Some t -> known s t) ->
+  (forall s', keeps s0 s' -> same_lists s s' -> Q tt s') ->
   wp (insert_appropriately c o) Q s.
 Proof.
-  intros K L H. unfold insert_appropriately. rewrite wp_bind.
-  eapply wp_appropriate_place; [exact K | exact L |]. intros ip s1 K1 SL1.
-  eapply wp_insert_at; [exact K1|]. intros s2 K2 SL2. apply H; [exact K2 | eapply same_lists_trans; eassumption].
+  intros K L Ch Ko H. unfold insert_appropriately. rewrite wp_bind.
+  eapply (wp_appropriate_place s s); [apply keeps_refl; exact (proj1 K) | exact L | exact Ko |]. intros ip s1 K1 SL1 Ok1.
+  assert (K1' : keeps s0 s1) by (eapply keeps_trans; eassumption).
+  eapply wp_insert_at; [exact K1' | exact Ok1 | eapply child_ok_stable; [exact (proj2 K1) | exact Ch] |].
+  intros s2 K2 SL2. apply H; [exact K2 | eapply same_lists_trans; eassumption].
 Qed.
 
 Lemma wp_append_text s0 s text (Q : presult -> st -> Prop) :
   keeps s0 s -> late s -> (forall s', keeps s0 s' -> same_lists s s' -> Q Done s') -> wp (append_text text) Q s.
 Proof.
   intros K L H. unfold append_text. rewrite wp_bind.
-  eapply wp_insert_appropriately; [exact K | exact L |]. intros s1 K1 SL. rewrite wp_ret. apply H; assumption.
+  eapply wp_insert_appropriately; [exact K | exact L | reflexivity | discriminate |]. intros s1 K1 SL. rewrite wp_ret. apply H; assumption.
 Qed.
 
 Lemma late_keeps s0 s : keeps s0 s -> late s0 -> late s.
@@ -332,7 +528,7 @@ Lemma wp_append_comment s0 s text (Q : presult -> st -> Prop) :
   keeps s0 s -> late s -> (forall s', keeps s0 s' -> same_lists s s' -> Q Done s') -> wp (append_comment text) Q s.
 Proof.
   intros K L H. unfold append_comment. rewrite wp_bind. unfold wp at 1. rewrite sink_create_comment_eq.
-  rewrite wp_bind. eapply wp_insert_appropriately; [apply new_comment_keeps; exact K | exact L |].
+  rewrite wp_bind. eapply wp_insert_appropriately; [apply new_comment_keeps; exact K | exact L | apply new_comment_child_ok; exact (proj1 K) | discriminate |].
   intros s1 K1 [E1 E2]. rewrite wp_ret. apply H; [exact K1 | split; [rewrite E1 | rewrite E2]; reflexivity].
 Qed.
 
@@ -340,7 +536,9 @@ Lemma wp_append_comment_to_doc s0 s text (Q : presult -> st -> Prop) :
   keeps s0 s -> (forall s', keeps s0 s' -> same_lists s s' -> Q Done s') -> wp (append_comment_to_doc text) Q s.
 Proof.
   intros K H. unfold append_comment_to_doc. rewrite wp_bind. unfold wp at 1. rewrite sink_create_comment_eq.
-  rewrite wp_bind, wp_emit, wp_ret. apply H; [apply keeps_set_out; apply new_comment_keeps; exact K | split; reflexivity].
+  rewrite wp_bind, wp_emit, wp_ret. apply H; [|split; reflexivity].
+  apply keeps_emit; [apply new_comment_keeps; exact K | reflexivity | reflexivity |].
+  cbn [op_okb]. pose proof (new_comment_child_ok s text (proj1 K)) as C. unfold child_ok in C. rewrite C. reflexivity.
 Qed.
 
 Lemma wp_append_comment_to_html s0 s text (Q : presult -> st -> Prop) :
@@ -350,7 +548,13 @@ Proof.
   destruct K as [I S]. destruct (TInv_stack_nonempty _ I L) as (r & rs & Er & _).
   exists r. split; [rewrite Er; reflexivity|].
   rewrite wp_bind. unfold wp at 1. rewrite sink_create_comment_eq.
-  rewrite wp_bind, wp_emit, wp_ret. apply H; [apply keeps_set_out; apply new_comment_keeps; split; assumption | split; reflexivity].
+  rewrite wp_bind, wp_emit, wp_ret. apply H; [|split; reflexivity].
+  assert (K : keeps s0 s) by (split; assumption).
+  apply keeps_emit; [apply new_comment_keeps; exact K | reflexivity | reflexivity |].
+  cbn [op_okb]. pose proof (new_comment_child_ok s text I) as C. unfold child_ok in C. rewrite C.
+  assert (Kr : known s r) by (eapply TInv_stack_known; [exact I | rewrite Er; left; reflexivity]).
+  pose proof (new_comment_keeps s s text (keeps_refl _ I)) as [_ Sc].
+  unfold v_container. rewrite (known_v_elem _ _ (stable_known _ _ _ Sc Kr)), orb_true_r. reflexivity.
 Qed.
 
 (* ---------- modes ---------- *)
@@ -423,9 +627,10 @@ Proof.
   unfold pop. rewrite wp_bind, wp_get, wp_bind, wp_unwrap. exists e. split; [exact V|].
   rewrite wp_bind, wp_modify, wp_bind, wp_emit, wp_ret.
   apply H; [| exact V | simpl; unfold vpop; apply removelast_firstn | reflexivity].
-  apply keeps_set_out. split.
+  assert (Ke : known s e) by (eapply TInv_stack_known; [exact I | apply vlast_In; exact V]).
+  apply keeps_emit; [| reflexivity | reflexivity | cbn [op_okb]; exact (known_v_elem _ _ Ke)]. split.
   - unfold vpop. rewrite removelast_firstn. apply TInv_truncate; [exact I | exact L | lia].
-  - eapply stable_trans; [exact S|]. constructor; try reflexivity. exists []. simpl. rewrite app_nil_r. reflexivity.
+  - eapply stable_trans; [exact S|]. apply stable_eqs; reflexivity.
 Qed.
 
 (* the prefix form of a shrunk stack *)
@@ -455,17 +660,18 @@ Lemma keeps_shrink s0 s k :
 Proof.
   intros [I S] L K. split.
   - apply TInv_truncate; assumption.
-  - eapply stable_trans; [exact S|]. constructor; try reflexivity. exists []. simpl. rewrite app_nil_r. reflexivity.
+  - eapply stable_trans; [exact S|]. apply stable_eqs; reflexivity.
 Qed.
 
 (* the list of pops emitted for a list of elements: only `out` changes *)
 Lemma wp_mapM_pops s0 s (l : list handle) (Q : unit -> st -> Prop) :
-  keeps s0 s -> (forall s', keeps s0 s' -> same_lists s s' -> Q tt s') ->
+  keeps s0 s -> Forall (known s) l -> (forall s', keeps s0 s' -> same_lists s s' -> Q tt s') ->
   wp (mapM_ (fun e => emit (OpPop e)) l) Q s.
 Proof.
-  revert s. induction l as [|e t IH]; intros s K H; simpl.
+  revert s. induction l as [|e t IH]; intros s K F H; simpl.
   - rewrite wp_ret. apply H; [exact K | apply same_lists_refl].
-  - rewrite wp_bind, wp_emit. apply IH; [apply keeps_set_out; exact K|].
+  - inversion F as [|x y Fe Ft]; subst. rewrite wp_bind, wp_emit.
+    apply IH; [apply keeps_emit; [exact K | reflexivity | reflexivity | cbn [op_okb]; exact (known_v_elem _ _ Fe)] | exact Ft |].
     intros s' K' SL. apply H; [exact K'|]. eapply same_lists_trans; [|exact SL]. split; reflexivity.
 Qed.
 
@@ -505,7 +711,10 @@ Proof.
   pose proof (rev_suffix_prefix _ _ _ A) as P.
   rewrite wp_bind, wp_modify.
   assert (Kr : keeps s0 (set_open_elems (rev rest) s)) by (rewrite P; apply keeps_shrink; assumption).
-  eapply wp_mapM_pops; [exact Kr|]. intros s' K' [E1 E2]. apply H; [exact K' | |].
+  assert (Fp : Forall (known (set_open_elems (rev rest) s)) popped).
+  { apply Forall_forall. intros h Hh. change (known s h). eapply TInv_stack_known; [exact I|].
+    apply in_rev. rewrite A. apply in_or_app. left. exact Hh. }
+  eapply wp_mapM_pops; [exact Kr | exact Fp |]. intros s' K' [E1 E2]. apply H; [exact K' | |].
   - exists (length rest). simpl in E1, E2. repeat split; [exact Lq | | rewrite E1; exact P].
     apply (f_equal (@length _)) in A. rewrite rev_length, app_length in A. lia.
   - intros h Hin Hset. rewrite E1. simpl. apply in_rev in Hin. rewrite A in Hin.
@@ -624,7 +833,7 @@ Proof.
   intros K L N X H. unfold expect_to_close. rewrite wp_bind.
   eapply wp_pop_until_named; [exact K | exact L | exact N | exact X |].
   intros n s' K' Sh. rewrite wp_when. destruct (negb (Nat.eqb n 1)).
-  - rewrite wp_parse_error. apply H; [apply keeps_set_out; exact K' | eapply shrunk_same; [exact Sh | split; reflexivity]].
+  - rewrite wp_parse_error. apply H; [(apply keeps_set_out; [|reflexivity]); exact K' | eapply shrunk_same; [exact Sh | split; reflexivity]].
   - apply H; assumption.
 Qed.
 
